@@ -657,6 +657,13 @@ func (dsc *dataStoreCommand) invertBits(srcKeyName, destKeyName string) (output 
 		invertedBytes = make([]byte, 0)
 	}
 
+	if len(invertedBytes) == 0 {
+		// an empty result deletes the destination
+		dsc.ds.data.remove(destKeyName)
+		output.data = respInt(0)
+		return
+	}
+
 	newSk := dsc.ds.newStoreKeyUnlocked(destKeyName)
 	newSk.flags = FLAG_KEY_TYPE_STRING
 	newSk.expiresAt = maxTime
@@ -705,6 +712,13 @@ func (dsc *dataStoreCommand) changeBits(destKeyName string, srcKeyNames []string
 				resultBytes[i] = op(a, b)
 			}
 		}
+	}
+
+	if len(resultBytes) == 0 {
+		// an empty result deletes the destination
+		dsc.ds.data.remove(destKeyName)
+		output.data = respInt(0)
+		return
 	}
 
 	newSk := dsc.ds.newStoreKeyUnlocked(destKeyName)
